@@ -2,9 +2,9 @@ SPECIFICATION Spec
 CONSTANTS
   NSlots = 2
   InitCap = 3
-  MaxTracks = 5
+  MaxTracks = 8
   MaxSec = 2
-  MaxIter = 4
+  MaxIter = 6
   Charge = TRUE
   MaxPrim = 2
   MaxE = 3
